@@ -145,10 +145,10 @@ def check_encrypt(acc, W, r, params, tag, ephemerals):
     _bad_calls[0] += 1
     if _bad_calls[0] % 3 == 0:
         # earlier in the same process a request was refused half way: a parameter list whose first values encode and whose last
-        # one cannot (a lone surrogate, None, an arbitrary object). How it is refused is only counted; the valid request after
+        # one cannot (lone surrogates in three shapes; None and arbitrary objects turned out to be accepted as their str()). How it is refused is only counted; the valid request after
         # it is judged as any other.
         k = (_bad_calls[0] // 3) % 3
-        badv = ["\ud800", None, object()][k]
+        badv = ["\ud800", "a\udfffb", "\udc00" * 3][k]      # (None and arbitrary objects are accepted: str() of them is sent)
         for how in ("urlencode", "encrypt"):
             try:
                 if how == "urlencode":
